@@ -25,22 +25,25 @@ func zzCount(slots []*zzSlot, v6 bool, pred func(s *zzSlot) bool) int {
 
 // C06(d): shrinking the pool only removes idle addresses.
 func ZZ_C06_dispose() {
-	sh := zz.Shard(8) // IPv6 address present x request pending x trunk interface
+	sh := zz.Shard(12) // IPv6 address present x request pending (none / IPv4 / IPv6) x trunk interface
 	n4, n6 := 2, sh%2
 	// (three IPv4 addresses exceed the 200k-path budget per shard in either tier)
 	f := zzNewFactory(false)
 	l, slots := zzPool(n4, n6, f)
 	zz.Assume(zzInv(slots))
-	if (sh/2)%2 == 1 {
+	switch (sh / 2) % 3 {
+	case 1:
 		l.allocatingV4 = append(l.allocatingV4, zzNewRequest())
+	case 2:
+		l.allocatingV6 = append(l.allocatingV6, zzNewRequest())
 	}
-	l.eni.Trunk = sh/4 == 1
+	l.eni.Trunk = sh/6 == 1
 	n := zz.IntRange("n", -1, 4)
 	anyOwned := false
 	for _, s := range slots {
 		anyOwned = zz.Or(anyOwned, s.owner != "")
 	}
-	pending := len(l.allocatingV4) > 0
+	pending := len(l.allocatingV4) > 0 || len(l.allocatingV6) > 0
 	r := l.Dispose(n)
 	zz.Assert(zz.LockState(l.cond.L) == 0, "the pool lock is released when Dispose returns")
 	zz.Assert(zzInv(slots), "Dispose preserves the pool invariant")
